@@ -44,7 +44,7 @@ func buildWorld(outer *testing.T, c mcase) *exec {
 		// one extra (unused) client, one extra client+connection and a channel stuck in INIT on one chain only,
 		// so that the two ends of every later link carry different client and channel identifiers
 		sim.Guard("asymmetry setup", func() {
-			p := ibctesting.NewPath(w.Chains[0], w.Chains[1])
+			p := ibctesting.NewPath(w.Chains[0], w.Chains[1]).DisableUniqueChannelIDs()
 			ep := p.EndpointA
 			if c.Asym == 2 {
 				ep = p.EndpointB
@@ -58,8 +58,23 @@ func buildWorld(outer *testing.T, c mcase) *exec {
 			}
 		})
 	}
-	x.links[sim.V1Unordered] = w.AddLink(sim.V1Unordered, 0, 1, nil)
-	x.links[sim.V1Ordered] = w.AddLink(sim.V1Ordered, 0, 1, nil)
+	// v1 links are created here (not through w.AddLink) so that channel identifiers are the ones real chains
+	// hand out (channel-0, channel-1, ... per chain) instead of ibctesting's process-wide unique numbering.
+	addV1 := func(kind sim.LinkKind) *sim.Link {
+		l := &sim.Link{Idx: len(w.Links), Kind: kind, Chain: [2]int{0, 1}}
+		sim.Guard("link setup", func() {
+			p := ibctesting.NewPath(w.Chains[0], w.Chains[1]).DisableUniqueChannelIDs()
+			if kind == sim.V1Ordered {
+				p.SetChannelOrdered()
+			}
+			p.Setup()
+			l.Path = p
+		})
+		w.Links = append(w.Links, l)
+		return l
+	}
+	x.links[sim.V1Unordered] = addV1(sim.V1Unordered)
+	x.links[sim.V1Ordered] = addV1(sim.V1Ordered)
 	x.links[sim.V2Clients] = w.AddLink(sim.V2Clients, 0, 1, nil)
 	x.links[sim.V2Alias] = w.AddLink(sim.V2Alias, 0, 1, x.links[sim.V1Unordered])
 	x.L = x.links[c.Kind]
